@@ -72,8 +72,9 @@ def run_order(scratch, text, chromosome_order, by_chrom=False, with_sequence=Fal
         fw.write_text(inp, text)
     outdir = os.path.join(scratch, f"out-{tag}")
     if not keep_outdir:
-        shutil.rmtree(outdir, ignore_errors=True)
-    os.makedirs(outdir, exist_ok=True)
+        shutil.rmtree(outdir, ignore_errors=True)  # the directory does not exist: creating it is the command's job
+    else:
+        os.makedirs(outdir, exist_ok=True)
     _ENV["root"], _ENV["flip"] = root, flip
     try:
         out = fw.guarded(order_gfa.run_order_gfa, gfa_filename=inp, outdir=outdir, by_chrom=by_chrom, chromosome_order=chromosome_order, with_sequence=with_sequence)
